@@ -8,7 +8,9 @@ def WLb (t : Task) : Prop := t.mode ≠ .fast → (t.ov ≠ [] ∨ t.del ≠ [])
 
 /-- of a parked task -/
 structure WLp (t : Task) : Prop where
-  locks : t.active = true → t.mode ≠ .fast → (t.ov ≠ [] ∨ t.del ≠ [] ∨ ∃ k n, t.pc = .seedGet k n) → t.locks ≠ []
+  locks : t.active = true → t.mode ≠ .fast →
+    (t.ov ≠ [] ∨ t.del ≠ [] ∨ (∃ k n, t.pc = .seedGet k n) ∨ (∃ k, t.pc = .expGet k) ∨ ∃ k v e, t.pc = .existsGet k v e) →
+      t.locks ≠ []
   cdel : t.pc = .commitDel → t.del ≠ []
   cset : t.pc = .commitSet → t.ov ≠ []
 
@@ -18,6 +20,13 @@ theorem holds_locks_ne {t : Task} {k : Nat} (hm : t.mode ≠ .fast) (h : holds t
 
 theorem WLp.body {t : Task} (h : WLp t) (ha : t.active = true) : WLb t :=
   fun hm ho => h.locks ha hm (by rcases ho with h1 | h1; exact Or.inl h1; exact Or.inr (Or.inl h1))
+
+theorem WLb_setxApply {t : Task} (h : t.mode ≠ .fast → t.locks ≠ []) (k : Nat) (v : Int) (e p : Bool) :
+    WLb (setxApply t k v e p) := by
+  have g := setxApply_frame t k v e p
+  intro hm _
+  rw [g.2.2.2.2.2.1]
+  exact h (by rw [← g.2.1]; exact hm)
 
 theorem WLb_localCmd {t t' : Task} {c : Cmd} (h : WLb t) (hl : localCmd t c = some t') : WLb t' := by
   cases c <;> simp only [localCmd] at hl
@@ -44,6 +53,21 @@ theorem WLb_localCmd {t t' : Task} {c : Cmd} (h : WLb t) (hl : localCmd t c = so
     split at hl <;> simp at hl; subst hl
     rename_i hh; simp at hh
     exact fun hm _ => holds_locks_ne hm hh.2
+  case expire k =>
+    split at hl
+    · split at hl
+      · simp at hl; subst hl; exact h
+      · split at hl <;> simp at hl
+        subst hl; exact h
+    · simp at hl
+  case setx k v e =>
+    split at hl
+    · rename_i hh; simp at hh
+      split at hl
+      · simp at hl; subst hl; exact WLb_setxApply (fun hm => holds_locks_ne hm hh.2) _ _ _ _
+      · split at hl <;> simp at hl
+        subst hl; exact WLb_setxApply (fun hm => holds_locks_ne hm hh.2) _ _ _ _
+    · simp at hl
   case sleep d => simp at hl
   case raise => simp at hl
   case nestIn f => simp at hl; subst hl; exact h
@@ -60,12 +84,15 @@ theorem WLp_afterCommit (t : Task) : WLp (afterCommit t) := by
 
 /-- a parked state whose pc is neither a commit step nor a seed read -/
 theorem WLp_plainpc {t : Task} (h : WLb t) (prog : List Cmd) (pc : PC) (h1 : pc ≠ .commitDel) (h2 : pc ≠ .commitSet)
-    (h3 : ∀ k n, pc ≠ .seedGet k n) : WLp { t with prog := prog, pc := pc } :=
+    (h3 : ∀ k n, pc ≠ .seedGet k n) (h4 : ∀ k, pc ≠ .expGet k := by simp)
+    (h5 : ∀ k v e, pc ≠ .existsGet k v e := by simp) : WLp { t with prog := prog, pc := pc } :=
   ⟨fun _ hm ho => h hm (by
-      rcases ho with a | a | ⟨k, n, a⟩
+      rcases ho with a | a | ⟨k, n, a⟩ | ⟨k, a⟩ | ⟨k, v, e, a⟩
       · exact Or.inl a
       · exact Or.inr a
-      · exact absurd a (h3 k n)),
+      · exact absurd a (h3 k n)
+      · exact absurd a (h4 k)
+      · exact absurd a (h5 k v e)),
    fun e => absurd e h1, fun e => absurd e h2⟩
 
 theorem WLp_lockOrFail {t : Task} (h : WLb t) (k : Nat) (prog : List Cmd) : WLp (lockOrFail t k prog) := by
@@ -102,6 +129,20 @@ theorem WLp_settle (now : Nat) (prog : List Cmd) (t : Task) (h : WLb t) : WLp (s
         · exact WLp_lockOrFail h _ _
       · exact WLp_plainpc h _ _ (by simp) (by simp) (by simp)
     case get k => split <;> exact WLp_plainpc h _ _ (by simp) (by simp) (by simp)
+    case expire k =>
+      split
+      · split
+        · rename_i hh
+          exact ⟨fun _ hm _ => holds_locks_ne hm hh, fun e => by simp at e, fun e => by simp at e⟩
+        · exact WLp_lockOrFail h _ _
+      · exact WLp_plainpc h _ _ (by simp) (by simp) (by simp)
+    case setx k v e =>
+      split
+      · split
+        · rename_i hh
+          exact ⟨fun _ hm _ => holds_locks_ne hm hh, fun e => by simp at e, fun e => by simp at e⟩
+        · exact WLp_lockOrFail h _ _
+      · exact WLp_plainpc h _ _ (by simp) (by simp) (by simp)
     case nestIn f => simp [localCmd] at hl
     case nestOut => simp [localCmd] at hl
 
@@ -129,14 +170,25 @@ theorem WLp_taskStep {t : Task} (hti : t.TI) (h : WLp t) (tid now : Nat) (store 
   case finished o => rw [taskStep_finished _ _ _ _ _ hpc]; exact h
   case seedGet k n =>
     rw [taskStep_seedGet _ _ _ _ _ hpc]
-    exact WLp_settle now _ _ (fun hm _ => h.locks (by simp [Task.active, hpc]) hm (Or.inr (Or.inr ⟨k, n, hpc⟩)))
+    exact WLp_settle now _ _ (fun hm _ => h.locks (by simp [Task.active, hpc]) hm (Or.inr (Or.inr (Or.inl ⟨k, n, hpc⟩))))
   case readGet k =>
     rw [taskStep_readGet _ _ _ _ _ hpc]
     exact WLp_settle now _ _ (h.body (by simp [Task.active, hpc]))
+  case expGet k =>
+    rw [taskStep_expGet _ _ _ _ _ hpc]
+    refine WLp_settle now _ _ (fun hm _ => ?_)
+    rw [(expBuffer_frame t k (store k)).2.2.2.2.2.1]
+    exact h.locks (by simp [Task.active, hpc]) (by rw [← (expBuffer_frame t k (store k)).2.1]; exact hm) (Or.inr (Or.inr (Or.inr (Or.inl ⟨k, hpc⟩))))
+  case existsGet k v e =>
+    rw [taskStep_existsGet _ _ _ _ _ hpc]
+    refine WLp_settle now _ _ (WLb_setxApply (t := { t with reads := t.reads ++ [store k] }) (fun hm => ?_) _ _ _ _)
+    exact h.locks (by simp [Task.active, hpc]) hm (Or.inr (Or.inr (Or.inr (Or.inr ⟨k, v, e, hpc⟩))))
   case direct c =>
     have hb := h.body (by simp [Task.active, hpc])
     rw [taskStep_direct _ _ _ _ _ hpc]
     cases c <;> simp only [directStep]
+    case setx k v e => exact WLp_settle now _ _ hb
+    case expire k => exact WLp_settle now _ _ hb
     case set k v => exact WLp_settle now _ _ hb
     case incr k n => exact WLp_settle now _ _ hb
     case get k => exact WLp_settle now _ _ hb
@@ -193,7 +245,7 @@ theorem WLp_run (store : Store) (ts : List Task) (hf : ∀ t ∈ ts, t.Fresh) (s
     rcases init_task_cases store ts j with ⟨_, t, ht, e⟩ | ⟨_, e⟩
     · rw [e]
       have f := hf t ht
-      exact ⟨fun _ _ ho => (by rcases ho with a | a | ⟨k, n, a⟩ <;> simp [f.ov, f.del, f.pc] at a),
+      exact ⟨fun _ _ ho => (by rcases ho with a | a | ⟨k, n, a⟩ | ⟨k, a⟩ | ⟨k, v, e, a⟩ <;> simp [f.ov, f.del, f.pc] at a),
         fun e' => (by rw [f.pc] at e'; cases e'), fun e' => (by rw [f.pc] at e'; cases e')⟩
     · rw [e]; exact WLp_inactive (by simp [Task.inert, Task.active]) (by simp [Task.inert]) (by simp [Task.inert])
 
